@@ -36,8 +36,11 @@ VARIANTS = [
          [(EM, "            iterations=self.visit(loop.iterations),\n", "            iterations=loop.iterations,\n")],
          ("C04.5", "LoopStatement.iterations")),
     fire("c04-splice-ignores-subcircuit",
-         [(EM, "                and not new_stmt.subcircuit\n", "")],
-         ("C04.2", "splice")),
+         [(EM, "                and not new_stmt.subcircuit\n", "", 0)],
+         ("C04.2", "MacroExpander.visit_BlockStatement:splice")),
+    fire("c04-replacer-splice-ignores-subcircuit",
+         [(EM, "                and not new_stmt.subcircuit\n", "", 1)],
+         ("C04.2", "GateReplacer.visit_BlockStatement:splice")),
     fire("c04-no-arity-check",
          [(EM, """        if len(gate.parameters) != len(macro.parameters):
             raise JaqalError(
@@ -61,7 +64,7 @@ VARIANTS = [
     # ---- behaviour-preserving rewrites
     silent("c04-rename-locals",
            [(EM, "        new_statements = []\n        for stmt in block.statements:\n            new_stmt = self.visit(stmt)",
-             "        new_statements = []\n        for child in block.statements:\n            new_stmt = self.visit(child)")]),
+             "        new_statements = []\n        for child in block.statements:\n            new_stmt = self.visit(child)", 0)]),
     silent("c04-extract-flags",
            [(EM, "        return BlockStatement(\n            parallel=block.parallel,\n            subcircuit=block.subcircuit,\n            iterations=block.iterations,\n            statements=new_statements,\n        )",
              "        is_par = block.parallel\n        is_sub = block.subcircuit\n        count = block.iterations\n        return BlockStatement(\n            parallel=is_par,\n            subcircuit=is_sub,\n            iterations=count,\n            statements=new_statements,\n        )")]),
@@ -69,6 +72,6 @@ VARIANTS = [
            [(EM, "        if len(gate.parameters) != len(macro.parameters):\n            raise JaqalError(",
              "        n_args = len(gate.parameters)\n        if n_args != len(macro.parameters):\n            raise JaqalError(")]),
     silent("c04-branch-on-parallel",
-           [(EM, "        return BlockStatement(\n            parallel=block.parallel,\n            subcircuit=block.subcircuit,\n            iterations=self.visit(block.iterations),\n            statements=[self.visit(stmt) for stmt in block.statements],\n        )",
-             "        stmts = [self.visit(stmt) for stmt in block.statements]\n        count = self.visit(block.iterations)\n        if block.parallel:\n            return BlockStatement(parallel=True, subcircuit=block.subcircuit, iterations=count, statements=stmts)\n        return BlockStatement(parallel=False, subcircuit=block.subcircuit, iterations=count, statements=stmts)")]),
+           [(EM, "        return BlockStatement(\n            parallel=block.parallel,\n            subcircuit=block.subcircuit,\n            iterations=self.visit(block.iterations),\n            statements=new_statements,\n        )",
+             "        count = self.visit(block.iterations)\n        if block.parallel:\n            return BlockStatement(parallel=True, subcircuit=block.subcircuit, iterations=count, statements=new_statements)\n        return BlockStatement(parallel=False, subcircuit=block.subcircuit, iterations=count, statements=new_statements)")]),
 ]
